@@ -182,7 +182,7 @@ def handle (toks : List String) : String :=
         [showFilter (filterKernel h false a mask), showFilter (filterKernel h true a mask)]))
       agree "filter" models spec
     | _, _ => "bad-op"
-  | ["take", _ty, ity, check, _off, rows, _ioff, idx] =>
+  | ["take", ty, ity, check, _off, rows, _ioff, idx] =>
     match parseRows rows, parseIdx idx, maxIdxOf ity with
     | some rows, some ix, some maxIdx =>
       let check := check = "1"
@@ -194,7 +194,9 @@ def handle (toks : List String) : String :=
         -- the specification only says "error"; the model says which kind
         match models with
         | m :: _ =>
-          if models.all (· = m) ∧ (m = "FAIL" ∨ m = "ERR:oob") then m
+          -- FixedSizeList has its own bounds test inside the kernel (same error class as
+          -- `check_bounds`), so for it the two failure kinds are not distinguished
+          if models.all (· = m) ∧ (m = "FAIL" ∨ m = "ERR:oob") then (if ty = "fsl" then "FAIL" else m)
           else mismatch "take" (" / ".intercalate models) "error"
         | [] => "bad-op"
     | _, _, _ => "bad-op"
